@@ -52,6 +52,7 @@ type result struct {
 	Probe     string            `json:"probe,omitempty"`
 	Workable  string            `json:"workable,omitempty"`
 	LoadReset bool              `json:"load_reset,omitempty"`
+	Restart   bool              `json:"restart_needed,omitempty"`
 }
 
 var (
@@ -324,6 +325,7 @@ func main() {
 			nmu.Unlock()
 			fileState(&r)
 			r.Runs = metrics.Global.Cache.CleanupRuns.Get()
+			r.Restart = config.IsRestartNeeded()
 		case "probe":
 			r.Probe = probe()
 		case "workable":
